@@ -31,6 +31,16 @@ func explainAll(fl *hx.Flags, s *hx.Sink, ins []exInput, ids []uint64) {
 	if len(ins) == 0 {
 		return
 	}
+	if fl.Tier != "thorough" && len(ins) > 360 {
+		// quick tier: an evenly spread sample (the explanation only goes to the statistics)
+		var a []exInput
+		var b []uint64
+		for k := 0; k < 360; k++ {
+			i := k * len(ins) / 360
+			a, b = append(a, ins[i]), append(b, ids[i])
+		}
+		ins, ids = a, b
+	}
 	coqDir := filepath.Join(os.Getenv("VERIF_DIR"), "coq")
 	if _, err := os.Stat(filepath.Join(coqDir, "spec", "TimerExplain.vo")); err != nil {
 		s.Extra["lts_explanation"] = "unavailable (spec/TimerExplain.vo not built)"
